@@ -79,7 +79,28 @@ class Tables:
 def load_shipped() -> Tables:
     from measured import _parser
 
-    return Tables(_parser.DATA, _parser.MEMO, "shipped src/measured/_parser.py")
+    t = Tables(_parser.DATA, _parser.MEMO, "shipped src/measured/_parser.py")
+    t.source = open(_parser.__file__).read()  # type: ignore
+    return t
+
+
+def runtime_definitions(source: str) -> Dict[str, str]:
+    """Every top-level class / function of a generated parser module, as a formatting-independent
+    AST dump (the Makefile runs black and isort over the file, and sed renames Lark_StandAlone)."""
+    import ast
+
+    tree = ast.parse(source.replace("Lark_StandAlone", "Parser"))
+    out: Dict[str, str] = {}
+    for n in tree.body:
+        if isinstance(n, (ast.ClassDef, ast.FunctionDef)):
+            # docstrings are formatting too
+            for sub in ast.walk(n):
+                if isinstance(sub, (ast.ClassDef, ast.FunctionDef)) and sub.body and \
+                        isinstance(sub.body[0], ast.Expr) and isinstance(sub.body[0].value, ast.Constant) and \
+                        isinstance(sub.body[0].value.value, str):
+                    sub.body = sub.body[1:] or [ast.Pass()]
+            out[n.name] = ast.dump(n, include_attributes=False)
+    return out
 
 
 def build_fresh(grammar_path: str = "/repo/src/measured/measured.lark",
@@ -104,6 +125,7 @@ def build_fresh(grammar_path: str = "/repo/src/measured/measured.lark",
         spec.loader.exec_module(mod)
         t = Tables(mod.DATA, mod.MEMO, "fresh build of measured.lark (lark.tools.standalone)")
         t.module = mod  # type: ignore
+        t.source = p.stdout  # type: ignore
         return t
     finally:
         shutil.rmtree(tmp, ignore_errors=True)
